@@ -4,8 +4,8 @@ import json
 
 CLAIMED = {
  'C01': dict(
-  text="Bounded symbolic execution of the real MIR of eval_expr's operator dispatch down to the BigRat/BigInt wrappers: for each operator (+ - * / mod and or xor << >> ^) the two operands are arbitrary Numbers (value an unbounded SMT Real, unit a symbolic exponent vector); every feasible path is enumerated and z3 decides, for all operand values at once, that the result is the textbook rational (or an error exactly where the mathematics is undefined), never a float, never a panic. sat models are replayed natively (kernel + query text) before being reported.",
-  note="Trusted: rustc MIR = source semantics; num-bigint/num-rational arithmetic per their docs (BigInt->Int, BigRational->Real, bit operators uninterpreted); std containers per contract. Bounds: one operator application (inductive over trees only w.r.t. value/unit of operands); pow/shift values for concrete exponents -4..4 (thorough -8..8), gates for symbolic ones; base-unit universe of 3 (thorough 4), exponents within +-2^31. OUTSIDE: the parser's precedence ladder and the number lexer (string scanners), Display of results.",
+  text="Bounded symbolic execution of the real MIR of eval_expr's operator dispatch down to the BigRat/BigInt wrappers: for each operator (+ - * / mod and or xor << >> ^) the two operands are arbitrary Numbers (value an unbounded SMT Real, unit a symbolic exponent vector); every feasible path is enumerated and z3 decides, for all operand values at once, that the result is the textbook rational (or an error exactly where the mathematics is undefined), never a float, never a panic. Literal notation: the real lexer + from_parts/parse_radix on 35 literal shapes with symbolic digits (separators, fraction, exponent, 0x/0o/0b) against positional notation. Precedence/associativity: the real parse_expr + eval_expr on every sequence of 3 (thorough 4) operands over + - * / | juxtaposition ^ mod, parentheses and unary minus, operand values symbolic, against an independent evaluator written from the manual's rules. sat models are replayed natively (kernel + query text) before being reported.",
+  note="Trusted: rustc MIR = source semantics; num-bigint/num-rational arithmetic per their docs (BigInt->Int, BigRational->Real, bit operators uninterpreted); std containers per contract. Bounds: one operator application (inductive over trees only w.r.t. value/unit of operands); pow/shift values for concrete exponents -4..4 (thorough -8..8), gates for symbolic ones; base-unit universe of 3 (thorough 4), exponents within +-2^31. Where the manual is silent (unary minus binds tighter than ^, `*` `/` `mod` share one left-to-right level) the oracle takes the present behaviour as the rule. OUTSIDE: expressions of more than 4 operands, chained `a|b|c`, `mod` of an unparenthesised quotient (z3 undecided), literals longer than 10 characters, Display of results.",
   technique="symbolic execution of rustc MIR + z3 (QF_NIRA), counterexample replay",
   ref="DESIGN.md §5 C01"),
  'C02': dict(
